@@ -285,9 +285,17 @@ func init() {
 			}
 			head := fmt.Sprintf("probe=%d ph=%d maxprio=%s", b2i(!r.chance(1, 4)), r.intn(2), []string{"10000", "0", "1", "2", "unset"}[r.intn(5)])
 			parts := []string{head}
+			burst := r.chance(1, 2) // all clients connect at once: handshakes and first requests overlap
+			if burst {
+				c.tag("burst")
+			}
 			for k := 0; k < n; k++ {
 				sc := genE2EScenario(c, r.fork(), true)
-				parts = append(parts, fmt.Sprintf("pfx=c%d- delay=%d %s", k, r.intn(30), sc))
+				d := r.intn(30)
+				if burst {
+					d = 0
+				}
+				parts = append(parts, fmt.Sprintf("pfx=c%d- delay=%d %s", k, d, sc))
 			}
 			c.tag("clients:" + bucket(n))
 			c.op("e2emulti " + strings.Join(parts, " || "))
